@@ -962,6 +962,17 @@ func (g *Gen) transCall(e *Expr, env *TEnv) tvT {
 			kt = g.numBig(k.lit, mt.Key())
 		}
 		return boolTv(fmt.Sprintf("(and (not (= %s 0)) (select (select %s %s) %s))", m.t, env.heap(in), m.t, g.mapKey(kt, mt)))
+	case "strlt":
+		// strlt(a, b): string a orders before string b (the strict total order on contents the code's < uses)
+		a := g.trans(args[0], env)
+		b := g.trans(args[1], env)
+		sm := types.NewMap(types.Typ[types.String], types.Typ[types.Bool])
+		if !g.funDecl["strlt"] {
+			g.funDecl["strlt"] = true
+			g.prel = append(g.prel, "(declare-fun strlt (Int Int) Bool)")
+			g.assumeGlobal("(forall ((a Int) (b Int)) (! (and (not (and (strlt a b) (strlt b a))) (=> (not (= a b)) (or (strlt a b) (strlt b a))) (=> (= a b) (not (strlt a b)))) :pattern ((strlt a b))))")
+		}
+		return boolTv(fmt.Sprintf("(strlt %s %s)", g.mapKey(a.t, sm), g.mapKey(b.t, sm)))
 	case "strkey":
 		// strkey(s): the content identity of a string (what map lookups and == compare)
 		s := g.trans(args[0], env)
